@@ -332,10 +332,10 @@ func init() {
 			"queries in total, or a build with >= 2 cores saw >= 2 clockwise shared ways",
 		Assumptions: []string{"the race detector only reports races that happen in the observed schedule; workloads are repeated to vary schedules",
 			"a query result is compared through its canonical rendering (obs), unordered results sorted"},
-		Quick: 40, Thorough: 600,
+		Quick: 40, Thorough: 400,
 		Batch: 2, MaxParallel: 8,
 		CaseCap: 20 * time.Minute, // compact builds under the race detector: ~20 s idle, minutes on an oversubscribed machine
-		Race: true, RaceThorough: true,
+		Race:    true, RaceThorough: true,
 		Required: []string{"readers_basic", "readers_basic-mutable", "readers_mutable-overlay", "readers_compact", "concurrent_queries", "polyline_queries", "cache_repeat_lookups",
 			"finish_builds", "finish_clockwise_shared_paths", "pbf_source_builds", "compact_parallel_builds"},
 		Run: c35Run,
